@@ -2674,6 +2674,124 @@ theorem reader_sees_aggregates (e : Engine M) (sym : Nat) (t0 : Int) (rows : Lis
 
 end run
 
+/-! ### jump-fixing the inner minutes of a window does not change its aggregate
+
+The normal simulator fixes the jump of EVERY minute in place before storing it; the fast simulator fixes only the
+first minute of a chunk and stores the inner minutes as they came.  For the candles of the bigger timeframes this
+makes no difference: extending a minute's range to the previous close never leaves the range the window already
+covers.  (So the two simulators publish the same bigger-timeframe candles from the same input, although their 1m
+arrays differ on gapped data.) -/
+section fixchain
+
+/-- the rows after `p`, each jump-fixed against its (already fixed) predecessor — what the normal simulator stores -/
+def fixChain : Candle → List Candle → List Candle
+  | _, [] => []
+  | p, c :: cs => fixJump p c :: fixChain (fixJump p c) cs
+
+theorem fixChain_length (p : Candle) (cs : List Candle) : (fixChain p cs).length = cs.length := by
+  induction cs generalizing p with
+  | nil => rfl
+  | cons c cs ih => simp [fixChain, ih]
+
+theorem fixChain_v (p : Candle) (cs : List Candle) : (fixChain p cs).map (·.v) = cs.map (·.v) := by
+  induction cs generalizing p with
+  | nil => rfl
+  | cons c cs ih =>
+    simp only [fixChain, List.map_cons, ih]
+    rw [(fix_jump_spec p c).elim (fun h => h.2.2.1) (fun h => by rw [h.2])]
+
+theorem fixChain_last_c (p : Candle) (cs : List Candle) (d : Candle) :
+    (((fixChain p cs).getLast?).getD d).c = ((cs.getLast?).getD d).c := by
+  induction cs generalizing p with
+  | nil => rfl
+  | cons c cs ih =>
+    cases cs with
+    | nil =>
+      simp only [fixChain, List.getLast?_singleton, Option.getD_some]
+      exact (fix_jump_spec p c).elim (fun h => h.2.1) (fun h => by rw [h.2])
+    | cons c2 cs2 =>
+      have := ih (fixJump p c)
+      simp only [fixChain, List.getLast?_cons_cons] at this ⊢
+      exact this
+
+theorem fixChain_max (cs : List Candle) : ∀ (p : Candle) (acc : Rat), p.c ≤ acc → (∀ k ∈ cs, k.Valid) →
+    maxOf ((fixChain p cs).map (·.h)) acc = maxOf (cs.map (·.h)) acc := by
+  induction cs with
+  | nil => intro _ _ _ _; rfl
+  | cons c cs ih =>
+    intro p acc hp hv
+    have hc : c.Valid := hv c List.mem_cons_self
+    obtain ⟨_, _, hh⟩ := fix_jump_bounds p c hc
+    have hcc : (fixJump p c).c = c.c := (fix_jump_spec p c).elim (fun h => h.2.1) (fun h => by rw [h.2])
+    simp only [fixChain, List.map_cons, maxOf]
+    have hacc : (if acc < (fixJump p c).h then (fixJump p c).h else acc) = (if acc < c.h then c.h else acc) := by
+      rw [hh]
+      by_cases h1 : acc < c.h
+      · have : acc < max c.h p.c := lt_of_lt_of_le h1 (le_max_left _ _)
+        rw [if_pos this, if_pos h1, max_eq_left (by linarith)]
+      · have : ¬ acc < max c.h p.c := by
+          rw [not_lt]; exact max_le (not_lt.mp h1) hp
+        rw [if_neg this, if_neg h1]
+    rw [hacc]
+    apply ih
+    · rw [hcc]
+      have := hc.2.2.2
+      by_cases h1 : acc < c.h
+      · rw [if_pos h1]; exact this
+      · rw [if_neg h1]; exact le_trans this (not_lt.mp h1)
+    · exact fun k hk => hv k (List.mem_cons_of_mem _ hk)
+
+theorem fixChain_min (cs : List Candle) : ∀ (p : Candle) (acc : Rat), acc ≤ p.c → (∀ k ∈ cs, k.Valid) →
+    minOf ((fixChain p cs).map (·.l)) acc = minOf (cs.map (·.l)) acc := by
+  induction cs with
+  | nil => intro _ _ _ _; rfl
+  | cons c cs ih =>
+    intro p acc hp hv
+    have hc : c.Valid := hv c List.mem_cons_self
+    obtain ⟨_, hl, _⟩ := fix_jump_bounds p c hc
+    have hcc : (fixJump p c).c = c.c := (fix_jump_spec p c).elim (fun h => h.2.1) (fun h => by rw [h.2])
+    simp only [fixChain, List.map_cons, minOf]
+    have hacc : (if (fixJump p c).l < acc then (fixJump p c).l else acc) = (if c.l < acc then c.l else acc) := by
+      rw [hl]
+      by_cases h1 : c.l < acc
+      · have : min c.l p.c < acc := lt_of_le_of_lt (min_le_left _ _) h1
+        rw [if_pos this, if_pos h1, min_eq_left (by linarith)]
+      · have : ¬ min c.l p.c < acc := by
+          rw [not_lt]; exact le_min (not_lt.mp h1) hp
+        rw [if_neg this, if_neg h1]
+    rw [hacc]
+    apply ih
+    · rw [hcc]
+      have := hc.2.2.1
+      by_cases h1 : c.l < acc
+      · rw [if_pos h1]; exact this
+      · rw [if_neg h1]; exact le_trans (not_lt.mp h1) this
+    · exact fun k hk => hv k (List.mem_cons_of_mem _ hk)
+
+/-- THE AGGREGATE OF A WINDOW IS THE SAME whether its inner minutes are stored jump-fixed (normal simulator) or as
+    they came (fast simulator), for every window of valid candles -/
+theorem aggregate_fixChain (c0 : Candle) (rest : List Candle) (hv : ∀ k ∈ c0 :: rest, k.Valid) :
+    aggregate (c0 :: fixChain c0 rest) = aggregate (c0 :: rest) := by
+  have h0 : c0.Valid := hv c0 List.mem_cons_self
+  have hr : ∀ k ∈ rest, k.Valid := fun k hk => hv k (List.mem_cons_of_mem _ hk)
+  simp only [aggregate]
+  have hlast : (((c0 :: fixChain c0 rest).getLast?).getD c0).c = (((c0 :: rest).getLast?).getD c0).c := by
+    cases rest with
+    | nil => rfl
+    | cons c cs =>
+      have := fixChain_last_c c0 (c :: cs) c0
+      simp only [fixChain, List.getLast?_cons_cons] at this ⊢
+      exact this
+  rw [hlast, fixChain_max rest c0 c0.h h0.2.2.2 hr, fixChain_min rest c0 c0.l h0.2.2.1 hr]
+  simp only [List.map_cons, fixChain_v]
+
+/-- non-vacuity: a window whose second minute gaps up and third gaps down -/
+example : aggregate (⟨0, 10, 11, 12, 9, 1⟩ :: fixChain ⟨0, 10, 11, 12, 9, 1⟩ [⟨60000, 13, 14, 15, 13, 1⟩, ⟨120000, 12, 12, 12, 11, 1⟩])
+    = aggregate [⟨0, 10, 11, 12, 9, 1⟩, ⟨60000, 13, 14, 15, 13, 1⟩, ⟨120000, 12, 12, 12, 11, 1⟩]
+    ∧ fixChain ⟨0, 10, 11, 12, 9, 1⟩ [⟨60000, 13, 14, 15, 13, 1⟩] ≠ [⟨60000, 13, 14, 15, 13, 1⟩] := by decide +kernel
+
+end fixchain
+
 /-! ### warm-up injection (`inject_warmup_candles_to_store`, model `Store.injectWarmup`)
 
 The warm-up candles reach the store before the first simulated minute, by a path of their own: the 1m array through
